@@ -288,7 +288,12 @@ def check(pid, tier, seed):
         violations.append(("monitor", path, False))
     pure_soft = []
     for d in pure_divs:
-        if d.get("missing") or (spec.get("pure_only_panics") and not (isinstance(d.get("impl"), dict) and "panic" in d["impl"])):
+        if d.get("missing"):
+            # a helper that is no longer found under its name (renamed / moved): the direct differential of that helper is
+            # skipped and noted; its behaviour is still compared through the entry points that use it
+            notes.setdefault("helpers_not_found", []).append(d.get("fn"))
+            continue
+        if spec.get("pure_only_panics") and not (isinstance(d.get("impl"), dict) and "panic" in d["impl"]):
             pure_soft.append(d)       # a different typed result is not a failing input of this property
             continue
         n += 1
